@@ -1,26 +1,468 @@
-//! C26: not implemented yet.
+//! C26: incremental (LSP) compilation agrees with a fresh compilation.
+//! Monitor: one long-lived real ServerState receives an edit history (module caching and garbage
+//! collection as configured by default, and a second one with garbage collection switched off);
+//! after every edit a brand-new ServerState opens the same text; published diagnostics and the
+//! document-symbol tree of both must be equal. Hook H4 events are used ONLY to know when the
+//! worker has finished compiling the edit (never as the oracle).
 use crate::common::*;
 use crate::{Plan, Prop};
+use lsp_types::{DidChangeTextDocumentParams, DidOpenTextDocumentParams, DocumentSymbolParams, DocumentSymbolResponse, TextDocumentContentChangeEvent, TextDocumentIdentifier, TextDocumentItem, Url, VersionedTextDocumentIdentifier};
+use rand::rngs::StdRng;
+use rand::Rng;
+use serde_json::{json, Value};
+use std::path::{Path, PathBuf};
+use std::sync::{Arc, Mutex};
+use std::time::{Duration, Instant};
+use sway_lsp::handlers::{notification, request};
+use sway_lsp::server_state::ServerState;
+use sway_types::verif_hooks::{Action, Kind};
 
 pub static META: PropertyMeta = PropertyMeta {
     id: "C26",
     level: "exploration",
-    rule: "not implemented",
-    assumptions: &[],
-    floor_evaluations: 1,
-    floor_nontrivial: 2,
-    required_counters: &[],
+    rule: "edit histories (8..14 full-text edits: insert / delete / replace / duplicate items, rename a function with or without its call sites, introduce and then fix type, name and syntax errors, edit the submodule then the root, revisit earlier texts) over a two-file std-less library package; after each edit: diagnostics (file, range, severity, message) and the flattened document-symbol tree (name, kind, range) of the incremental server vs a fresh server on the same text; an evaluation = one edit step; non-trivial = the step's diagnostics or symbols differ from the previous step's; distinct = hash of (previous text, new text)",
+    assumptions: &["the fresh server's result is the reference", "steps for which a server does not settle within the watchdog are inconclusive"],
+    floor_evaluations: 150,
+    floor_nontrivial: 50,
+    required_counters: &["steps_compared", "steps_with_diagnostics", "steps_text_revisited", "symbol_trees_compared"],
 };
 
 pub static PROP: Prop = Prop {
     meta: &META,
-    plan: |_t| Plan { nshards: 1, budget_s: 1.0, mem_gib: 0 },
-    shard: |_ctx| {
-        let mut r = ShardResult::default();
-        r.harness_fault = Some("not implemented".into());
-        r
-    },
-    replay: crate::no_replay,
+    plan: |t| Plan { nshards: 16, budget_s: t.pick(55.0, 1200.0), mem_gib: 6 },
+    shard,
+    replay,
     extra: crate::no_extra,
     subcommand: crate::no_subcommand,
 };
+
+/// The diagnostics of a module that was NOT modified by the edit (it is served from the module
+/// cache) are missing from the incremental result; a fresh compilation reports them.
+pub const CLASS_CACHED_MODULE_DIAGNOSTICS_DROPPED: &str = "diagnostics-of-unmodified-cached-module-dropped";
+/// The program has errors; the incremental server additionally publishes warnings (and nothing
+/// else differs) that a fresh compilation of the same text does not publish.
+pub const CLASS_EXTRA_WARNINGS_WHILE_ERRORS: &str = "incremental-publishes-extra-warnings-while-errors-present";
+
+// ------------------------------------------------------------------------------------------
+// event recorder (synchronisation only)
+
+static EVENTS: Mutex<Vec<(String, String)>> = Mutex::new(Vec::new());
+
+fn recorder(_k: Kind, point: &'static str, detail: &str) -> Action {
+    if point.starts_with("worker.") {
+        let mut g = EVENTS.lock().unwrap();
+        if g.len() > 100_000 {
+            g.clear();
+        }
+        g.push((point.to_string(), detail.to_string()));
+    }
+    Action::Continue
+}
+
+/// wait until the worker has finished compiling `version` and is idle again
+fn wait_compiled(version: i32, limit: Duration) -> bool {
+    let t0 = Instant::now();
+    let tag = format!("Some({version})");
+    loop {
+        {
+            let g = EVENTS.lock().unwrap();
+            if let Some(p) = g.iter().rposition(|(pt, d)| pt == "worker.compile_end" && d.starts_with(&tag)) {
+                if g[p..].iter().any(|(pt, _)| pt == "worker.recv") {
+                    return true;
+                }
+            }
+        }
+        if t0.elapsed() > limit {
+            return false;
+        }
+        std::thread::sleep(Duration::from_millis(1));
+    }
+}
+
+// ------------------------------------------------------------------------------------------
+// documents
+
+const ITEMS: [&str; 26] = [
+    "pub fn add(a: u64, b: u64) -> u64 {\n    __add(a, b)\n}",
+    "pub fn twice(a: u64) -> u64 {\n    add(a, a)\n}",
+    "pub struct Point {\n    pub x: u64,\n    pub y: u64,\n}",
+    "pub enum Shape {\n    Dot: (),\n    Line: u64,\n}",
+    "pub const LIMIT: u64 = 10;",
+    "pub fn area(p: Point) -> u64 {\n    __mul(p.x, p.y)\n}",
+    "impl Point {\n    pub fn sum(self) -> u64 {\n        __add(self.x, self.y)\n    }\n}",
+    "pub fn pick(s: Shape) -> u64 {\n    match s {\n        Shape::Dot => 0,\n        Shape::Line(n) => n,\n    }\n}",
+    "pub trait Size {\n    fn size(self) -> u64;\n}",
+    "impl Size for Point {\n    fn size(self) -> u64 {\n        2\n    }\n}",
+    "fn unused_private() -> bool {\n    true\n}",
+    "pub fn uses_sub() -> u64 {\n    sub::helper(3)\n}",
+    // deliberate errors
+    "pub fn type_error() -> u64 {\n    true\n}",
+    "pub fn name_error() -> u64 {\n    __add(undefined_name, 1)\n}",
+    "pub fn wrong_args() -> u64 {\n    add(1)\n}",
+    "pub fn syntax_error( -> u64 {\n    1\n}",
+    "pub fn missing_brace() -> u64 {\n    1\n",
+    "pub fn bad_field(p: Point) -> u64 {\n    p.z\n}",
+    "pub fn non_exhaustive(s: Shape) -> u64 {\n    match s {\n        Shape::Dot => 0,\n    }\n}",
+    "pub fn shadow(a: u64) -> u64 {\n    let a = a;\n    let b = 5;\n    a\n}",
+    "pub struct Point {\n    pub x: u64,\n}",
+    "pub fn twice(a: bool) -> bool {\n    a\n}",
+    "pub fn uses_limit() -> u64 {\n    __add(LIMIT, 1)\n}",
+    "pub fn generic<T>(x: T) -> T {\n    x\n}",
+    "pub fn calls_generic() -> u64 {\n    generic(7)\n}",
+    "pub fn mutate() -> u64 {\n    let mut v = 1;\n    v = __add(v, 1);\n    v\n}",
+];
+
+const SUB_ITEMS: [&str; 6] = [
+    "pub fn helper(a: u64) -> u64 {\n    __add(a, 1)\n}",
+    "pub fn helper(a: u64) -> bool {\n    __eq(a, 1)\n}",
+    "pub fn other() -> u64 {\n    2\n}",
+    "pub struct SubS {\n    pub v: u64,\n}",
+    "pub fn broken() -> u64 {\n    false\n}",
+    "pub fn helper2(a: u64, b: u64) -> u64 {\n    __mul(a, b)\n}",
+];
+
+#[derive(Clone, Debug, PartialEq, serde::Serialize, serde::Deserialize)]
+pub struct Doc {
+    pub root: Vec<usize>,
+    pub sub: Vec<usize>,
+    /// rename applied to `add`: None, Some(true) = with call sites, Some(false) = declaration only
+    pub rename: Option<bool>,
+}
+
+impl Doc {
+    fn root_text(&self) -> String {
+        let mut s = String::from("library;\n\nmod sub;\n\n");
+        for i in &self.root {
+            s.push_str(ITEMS[*i]);
+            s.push_str("\n\n");
+        }
+        match self.rename {
+            Some(true) => s.replace("add(", "plus("),
+            Some(false) => s.replace("pub fn add(", "pub fn plus("),
+            None => s,
+        }
+    }
+    fn sub_text(&self) -> String {
+        let mut s = String::from("library;\n\n");
+        for i in &self.sub {
+            s.push_str(SUB_ITEMS[*i]);
+            s.push_str("\n\n");
+        }
+        s
+    }
+}
+
+fn edit(rng: &mut StdRng, d: &Doc, history: &[Doc], res: &mut ShardResult) -> Doc {
+    let mut n = d.clone();
+    let k = rng.gen_range(0..100);
+    let name = match k {
+        0..=29 => {
+            let pos = rng.gen_range(0..=n.root.len());
+            n.root.insert(pos, rng.gen_range(0..ITEMS.len()));
+            "insert_item"
+        }
+        30..=44 if !n.root.is_empty() => {
+            let pos = rng.gen_range(0..n.root.len());
+            n.root.remove(pos);
+            "delete_item"
+        }
+        45..=59 if !n.root.is_empty() => {
+            let pos = rng.gen_range(0..n.root.len());
+            n.root[pos] = rng.gen_range(0..ITEMS.len());
+            "replace_item"
+        }
+        60..=64 if !n.root.is_empty() => {
+            let pos = rng.gen_range(0..n.root.len());
+            let it = n.root[pos];
+            n.root.insert(pos, it);
+            "duplicate_item"
+        }
+        65..=72 => {
+            n.rename = match n.rename {
+                None => Some(rng.gen_bool(0.5)),
+                Some(_) => None,
+            };
+            "rename_function"
+        }
+        73..=86 => {
+            if n.sub.is_empty() || rng.gen_bool(0.5) {
+                n.sub.push(rng.gen_range(0..SUB_ITEMS.len()));
+            } else {
+                let pos = rng.gen_range(0..n.sub.len());
+                n.sub[pos] = rng.gen_range(0..SUB_ITEMS.len());
+            }
+            "edit_submodule"
+        }
+        87..=99 if history.len() >= 2 => {
+            n = history[rng.gen_range(0..history.len() - 1)].clone();
+            "revisit_earlier_text"
+        }
+        _ => {
+            n.root.push(rng.gen_range(0..ITEMS.len()));
+            "insert_item"
+        }
+    };
+    res.count(&format!("edit.{name}"));
+    n
+}
+
+// ------------------------------------------------------------------------------------------
+// servers
+
+struct Srv {
+    rt: tokio::runtime::Runtime,
+    state: ServerState,
+    root_uri: Url,
+    sub_uri: Url,
+    version: i32,
+}
+
+fn write_project(dir: &Path, d: &Doc) -> (PathBuf, PathBuf) {
+    let proj = dir.join("proj");
+    let _ = std::fs::remove_dir_all(&proj);
+    std::fs::create_dir_all(proj.join("src")).unwrap();
+    std::fs::write(proj.join("Forc.toml"), "[project]\nauthors = [\"verif\"]\nentry = \"lib.sw\"\nlicense = \"Apache-2.0\"\nname = \"proj\"\nimplicit-std = false\n\n[dependencies]\n").unwrap();
+    let root = proj.join("src").join("lib.sw");
+    let sub = proj.join("src").join("sub.sw");
+    std::fs::write(&root, d.root_text()).unwrap();
+    std::fs::write(&sub, d.sub_text()).unwrap();
+    (root, sub)
+}
+
+impl Srv {
+    fn start(dir: &Path, d: &Doc, gc: bool) -> Result<Srv, String> {
+        let (root, sub) = write_project(dir, d);
+        let rt = tokio::runtime::Builder::new_current_thread().enable_all().build().map_err(|e| e.to_string())?;
+        let state = ServerState::default();
+        state.config.write().garbage_collection.gc_enabled = gc;
+        let root_uri = Url::from_file_path(&root).unwrap();
+        let sub_uri = Url::from_file_path(&sub).unwrap();
+        for (uri, text) in [(&root_uri, d.root_text()), (&sub_uri, d.sub_text())] {
+            let params = DidOpenTextDocumentParams { text_document: TextDocumentItem { uri: uri.clone(), language_id: "sway".into(), version: 1, text } };
+            let r = rt.block_on(async { tokio::time::timeout(Duration::from_secs(20), notification::handle_did_open_text_document(&state, params)).await });
+            match r {
+                Err(_) => return Err("did_open did not return within 20 s".into()),
+                Ok(Err(e)) => return Err(format!("did_open failed: {e}")),
+                Ok(Ok(())) => {}
+            }
+        }
+        Ok(Srv { rt, state, root_uri, sub_uri, version: 1 })
+    }
+
+    /// full-text change of whichever file differs; waits until the worker has compiled it
+    fn apply(&mut self, prev: &Doc, next: &Doc) -> Result<(), String> {
+        let mut changed = vec![];
+        if prev.sub_text() != next.sub_text() {
+            changed.push((self.sub_uri.clone(), next.sub_text()));
+        }
+        if prev.root_text() != next.root_text() || changed.is_empty() {
+            changed.push((self.root_uri.clone(), next.root_text()));
+        }
+        for (uri, text) in changed {
+            self.version += 1;
+            let v = self.version;
+            let ch = TextDocumentContentChangeEvent { range: None, range_length: None, text };
+            let params = DidChangeTextDocumentParams { text_document: VersionedTextDocumentIdentifier { uri, version: v }, content_changes: vec![ch] };
+            self.rt.block_on(notification::handle_did_change_text_document(&self.state, params)).map_err(|e| format!("did_change failed: {e}"))?;
+            if !wait_compiled(v, Duration::from_secs(20)) {
+                return Err("the worker did not finish compiling the edit within 20 s".into());
+            }
+        }
+        Ok(())
+    }
+
+    fn observe(&self) -> Result<(Vec<String>, Vec<String>), String> {
+        let mut diags = vec![];
+        let mut syms = vec![];
+        for (label, ws_uri) in [("lib.sw", &self.root_uri), ("sub.sw", &self.sub_uri)] {
+            let (uri, session) = self.state.uri_and_session_from_workspace(ws_uri).map_err(|e| e.to_string())?;
+            if let Some(d) = session.diagnostics.read().get(&PathBuf::from(uri.path())) {
+                for (sev, list) in [("warning", &d.warnings), ("error", &d.errors)] {
+                    for x in list {
+                        diags.push(format!("{label} {sev} {}:{}-{}:{} {}", x.range.start.line, x.range.start.character, x.range.end.line, x.range.end.character, x.message));
+                    }
+                }
+            }
+            let params = DocumentSymbolParams { text_document: TextDocumentIdentifier { uri: ws_uri.clone() }, work_done_progress_params: Default::default(), partial_result_params: Default::default() };
+            let r = self.rt.block_on(async { tokio::time::timeout(Duration::from_secs(20), request::handle_document_symbol(&self.state, params)).await });
+            match r {
+                Err(_) => return Err("document_symbol did not return within 20 s".into()),
+                Ok(Ok(Some(DocumentSymbolResponse::Nested(v)))) => {
+                    fn flat(prefix: &str, v: &[lsp_types::DocumentSymbol], out: &mut Vec<String>) {
+                        for s in v {
+                            out.push(format!("{prefix}{} {:?} {}:{}-{}:{}", s.name, s.kind, s.range.start.line, s.range.start.character, s.range.end.line, s.range.end.character));
+                            if let Some(c) = &s.children {
+                                flat(&format!("{prefix}{}/", s.name), c, out);
+                            }
+                        }
+                    }
+                    flat(&format!("{label}:"), &v, &mut syms);
+                }
+                Ok(Ok(_)) => syms.push(format!("{label}:<none>")),
+                Ok(Err(e)) => return Err(format!("document_symbol failed: {e:?}")),
+            }
+        }
+        diags.sort();
+        syms.sort();
+        Ok((diags, syms))
+    }
+
+    fn stop(self) {
+        let _ = self.state.shutdown_server();
+    }
+}
+
+fn run_history(dir: &Path, docs: &[Doc], gc: bool, res: &mut ShardResult) {
+    let mut inc = match Srv::start(&dir.join("inc"), &docs[0], gc) {
+        Ok(s) => s,
+        Err(e) => {
+            res.inconclusive(format!("incremental server did not start: {e}"));
+            return;
+        }
+    };
+    let mut prev_obs: Option<(Vec<String>, Vec<String>)> = None;
+    for k in 1..docs.len() {
+        res.evaluations += 1;
+        if let Err(e) = inc.apply(&docs[k - 1], &docs[k]) {
+            res.inconclusive(format!("incremental server: {e}"));
+            break;
+        }
+        let a = match inc.observe() {
+            Ok(x) => x,
+            Err(e) => {
+                res.inconclusive(format!("incremental server: {e}"));
+                break;
+            }
+        };
+        let fresh = match Srv::start(&dir.join("fresh"), &docs[k], gc) {
+            Ok(s) => s,
+            Err(e) => {
+                res.inconclusive(format!("fresh server did not start: {e}"));
+                continue;
+            }
+        };
+        let b = fresh.observe();
+        fresh.stop();
+        let b = match b {
+            Ok(x) => x,
+            Err(e) => {
+                res.inconclusive(format!("fresh server: {e}"));
+                continue;
+            }
+        };
+        res.count("steps_compared");
+        res.count("symbol_trees_compared");
+        if !b.0.is_empty() {
+            res.count("steps_with_diagnostics");
+        }
+        if docs[..k].contains(&docs[k]) {
+            res.count("steps_text_revisited");
+        }
+        if prev_obs.as_ref() != Some(&b) {
+            res.note_nontrivial(hash64(format!("{}{}{}{}", docs[k - 1].root_text(), docs[k - 1].sub_text(), docs[k].root_text(), docs[k].sub_text()).as_bytes()));
+        }
+        prev_obs = Some(b.clone());
+        let replay = json!({"docs": &docs[..=k], "gc": gc});
+        if a.0 != b.0 {
+            let only_inc: Vec<&String> = a.0.iter().filter(|x| !b.0.contains(x)).collect();
+            let only_fresh: Vec<&String> = b.0.iter().filter(|x| !a.0.contains(x)).collect();
+            // classify by mechanism; a difference explained by neither mechanism keeps a per-history signature
+            let root_modified = docs[k - 1].root_text() != docs[k].root_text();
+            let sub_modified = docs[k - 1].sub_text() != docs[k].sub_text();
+            let unmodified = |d: &String| (d.starts_with("lib.sw ") && !root_modified) || (d.starts_with("sub.sw ") && !sub_modified);
+            let class = if only_inc.is_empty() && !only_fresh.is_empty() && only_fresh.iter().all(|d| unmodified(d)) {
+                Some(CLASS_CACHED_MODULE_DIAGNOSTICS_DROPPED)
+            } else if only_fresh.is_empty() && !only_inc.is_empty() && only_inc.iter().all(|d| d.contains(" warning ")) && b.0.iter().any(|d| d.contains(" error ")) {
+                Some(CLASS_EXTRA_WARNINGS_WHILE_ERRORS)
+            } else {
+                None
+            };
+            match class {
+                Some(sig) => {
+                    res.count(&format!("class.{sig}"));
+                    if res.counters.get(&format!("class.{sig}")).copied().unwrap_or(0) <= 3 {
+                        res.violation(sig.to_string(), format!("after edit {k} (gc={gc}): only incremental {only_inc:?} / only fresh {only_fresh:?}"), replay.clone());
+                    }
+                    // a listed mechanism: keep exploring the rest of the history
+                    continue;
+                }
+                None => {
+                    res.violation(
+                        format!("incremental-diagnostics-differ:{:016x}", hash64(format!("{:?}", &docs[..=k]).as_bytes())),
+                        format!("after edit {k} (gc={gc}) the incremental server publishes diagnostics a fresh server does not: only incremental {only_inc:?} / only fresh {only_fresh:?}"),
+                        replay.clone(),
+                    );
+                    break;
+                }
+            }
+        }
+        if a.1 != b.1 {
+            let only_inc: Vec<&String> = a.1.iter().filter(|x| !b.1.contains(x)).collect();
+            let only_fresh: Vec<&String> = b.1.iter().filter(|x| !a.1.contains(x)).collect();
+            res.violation(
+                format!("incremental-symbols-differ:{:016x}", hash64(format!("{:?}", &docs[..=k]).as_bytes())),
+                format!("after edit {k} (gc={gc}) the document symbols differ: only incremental {only_inc:?} / only fresh {only_fresh:?}"),
+                replay,
+            );
+            break;
+        }
+        if res.samples.len() < 2 && !b.0.is_empty() {
+            res.sample(json!({"step": k, "gc": gc, "root_text": docs[k].root_text(), "diagnostics": b.0, "symbols": b.1.iter().take(12).collect::<Vec<_>>()}));
+        }
+    }
+    inc.stop();
+}
+
+fn gen_history(rng: &mut StdRng, res: &mut ShardResult) -> Vec<Doc> {
+    let mut docs = vec![Doc { root: vec![0, 1, 2, 3], sub: vec![0], rename: None }];
+    let n = rng.gen_range(8..=14);
+    for _ in 0..n {
+        let d = edit(rng, docs.last().unwrap(), &docs, res);
+        docs.push(d);
+    }
+    docs
+}
+
+fn setup_env(dir: &Path) {
+    let home = dir.join("home");
+    let tmp = dir.join("tmp");
+    std::fs::create_dir_all(&home).ok();
+    std::fs::create_dir_all(&tmp).ok();
+    std::env::set_var("HOME", &home);
+    std::env::set_var("TMPDIR", &tmp);
+    sway_types::verif_hooks::install(Some(Arc::new(recorder)));
+}
+
+fn shard(ctx: &ShardCtx) -> ShardResult {
+    let mut res = ShardResult::default();
+    let dir = ctx.work();
+    setup_env(&dir);
+    let mut i = ctx.first_index;
+    while ctx.time_left() {
+        let mut rng = ctx.rng(i);
+        let docs = gen_history(&mut rng, &mut res);
+        let gc = i % 3 != 2;
+        res.count(if gc { "histories_gc_on" } else { "histories_gc_off" });
+        ctx.begin_case(i, &format!("{docs:?}"), &res);
+        run_history(&dir, &docs, gc, &mut res);
+        ctx.end_case();
+        EVENTS.lock().unwrap().clear();
+        // the temporary workspace clones of stopped servers accumulate under TMPDIR
+        let _ = std::fs::remove_dir_all(dir.join("tmp"));
+        std::fs::create_dir_all(dir.join("tmp")).ok();
+        i += 1;
+    }
+    res
+}
+
+fn replay(v: &Value) -> ShardResult {
+    let mut res = ShardResult::default();
+    let dir = work_dir("C26").join("replay");
+    clean_dir(&dir);
+    setup_env(&dir);
+    match serde_json::from_value::<Vec<Doc>>(v["docs"].clone()) {
+        Ok(docs) if docs.len() >= 2 => run_history(&dir, &docs, v["gc"].as_bool().unwrap_or(true), &mut res),
+        _ => res.harness_fault = Some("bad replay".into()),
+    }
+    res
+}
